@@ -33,6 +33,7 @@ EXPLANATION = (
     " (R7) scalar bounds handed to add_variables are recognised also when they are numpy scalars (no silent fall-through to the default bounds [0, 1]); (R2, extended) the bit expansion is sized from integer_ub when the caller gives the bound of the integer factor, from ub otherwise, and each case is sufficient for its sizing quantity. "
     " (R5, extended) the fix queue is applied with one entry per column (dict keys, sorted) and its status is checked; the lower bounds written take a value fixed in the same batch into account (def-use with reaching definitions, both backends). "
     "variable's own column index, one entry per requested key.  NOT decided: HiGHS' handling of the rows, numerical tolerance."
+    ' (R6, round 3) no public getter rebuilds indices from variable names (known finding: get_variable_values); (R7) bounds of integer variables are rounded inwards.'
 )
 DECIDED = ["exactness of the binary*continuous product helper (soundness + completeness, algebraic proof)",
            "structure and bit-count sufficiency of the integer*continuous helper",
